@@ -153,6 +153,16 @@ CLAIMED = {
             'identical before/after auto-design with a RamanFiber for 4 user settings.',
             'floats as reals; pipeline-level harness with concrete parameters (EOL=0); JSON passed as dicts',
             'DESIGN.md §2 C17'),
+    'C19': ('symx',
+            'bounded symbolic execution of the real response-building and CSV export code with z3 (exact two-decimal rounding); models '
+            'replayed on the float code',
+            'On the C13 path with distinct symbolic receiver figures per direction and channel: ResultElement.json lists the route hop by '
+            'hop, transponder type/mode, assigned N/M labels (none when blocked, with the blocking reason), every SNR metric is the value of '
+            'the RIGHT direction\'s receiver rounded to two decimals, penalties are that direction\'s; results_to_json has one entry per '
+            'request; the CSV row states the same values and its pass flag is equivalent to lowest SNR >= OSNR + margin; aggregation joins '
+            'only identical requests (id joined, bandwidth summed).',
+            'floats as reals; 3 channels; csv.DictWriter replaced by a row recorder; line environment stub as in C13',
+            'DESIGN.md §2 C19'),
     'C18': ('crosshair',
             'CrossHair symbolic execution (z3) of the real converters on bounded symbolic documents; counterexamples replayed '
             'un-instrumented',
